@@ -280,6 +280,16 @@ def gen_c04(rng, tier, mult=1):
         if rng.random() < 0.4:      # end at something that exists, so that resolution matters
             toks = toks[:n - 2] + rng.choice(TAILS)
         yield c04_case(proto, cfg, toks, f"sample-{n}", lead=rng.choice([None, None, "", "%2f"]))
+    # requests that name existing files (plain, re-encoded, with repeated slashes): what is served must be that file
+    benign = (250 if tier == "quick" else 5000) * mult
+    for _ in range(benign):
+        proto, cfg = rot()
+        toks = list(rng.choice(TAILS[:4] + [["%2e%2e"], ["\\.."], ["..%252f"], ["%252e%252e"], ["b", "c.txt"], ["a.txt"]]))
+        if rng.random() < 0.3:
+            toks = [""] * rng.randrange(1, 3) + toks
+        if rng.random() < 0.4:
+            toks = [pct_some(rng, t, 0.3) for t in toks]
+        yield c04_case(proto, cfg, toks, "benign", lead=rng.choice([None, None, ""]))
     # random longer, wider alphabet, every configuration incl. access restrictions
     longer = (500 if tier == "quick" else 10000) * mult
     for _ in range(longer):
